@@ -15,8 +15,15 @@
    whose result set (addrinfo nodes, hostent addresses) is a strict part of the baseline's
    (a lookup that failed for lack of memory was swallowed), anything left allocated after
    ares_destroy, and a request submitted after the failure that does not behave exactly as in
-   the baseline.  (A successful callback whose payload differs in another way is not judged:
-   after a lost answer the scripted network of a scenario may answer a retry differently.) *)
+   the baseline, and a successful callback whose payload (every field the application can read:
+   canonical name, aliases, CNAME chain with alias and target, addresses, TTLs, record dump)
+   differs from the baseline's although the run, up to this callback, asked no question and
+   read no datagram that the baseline run did not ask / read (its network dialogue is a
+   subsequence of the baseline's): the network cannot account for the difference, the library
+   "proceeded", but not correctly - a silently damaged, degraded or incomplete result.  (When
+   the run did see other traffic - an answer was dropped and a retry was answered by another
+   step of the scenario's script - a differing successful payload is not judged beyond the
+   strict-part rule.) *)
 From CAres.Base Require Export Outcome.
 From CAres.Gen Require Import Consts.
 Local Open Scope Z_scope.
@@ -30,7 +37,9 @@ Record tok_obs := mkTok {
   t_base_ret : option Z;
   t_payload_same : bool;     (* every successful callback carries the baseline payload *)
   t_partial : bool;          (* a successful callback carries a strict part of the baseline result set *)
-  t_after_failure : bool }.  (* submitted after the failure happened, or nothing failed *)
+  t_after_failure : bool;    (* submitted after the failure happened, or nothing failed *)
+  t_same_dialogue : bool }.  (* questions sent / datagrams read before each successful callback
+                                are a subsequence of the baseline's *)
 
 Record obs := mkObs {
   o_init : Z;                (* status of ares_init_options *)
@@ -50,6 +59,7 @@ Inductive verdict :=
 | VBadStatus (t st : Z)
 | VBadReturn (t st : Z)
 | VPartialResult (t : Z)
+| VWrongResult (t : Z)
 | VUnusable (t : Z)
 | VBadInit (st : Z)
 | VBadApi (st base : Z)
@@ -94,6 +104,7 @@ Definition judge_tok (t : tok_obs) : list verdict :=
   flat_map (judge_status t) (t_cb t) ++
   judge_ret t ++
   (if t_partial t then [VPartialResult (t_id t)] else []) ++
+  (if t_same_dialogue t && negb (t_payload_same t) && negb (t_partial t) then [VWrongResult (t_id t)] else []) ++
   (if t_after_failure t && negb (list_eqb (t_cb t) (t_base_cb t) && opt_eqb (t_ret t) (t_base_ret t))
    then [VUnusable (t_id t)] else []).
 
